@@ -38,7 +38,9 @@ FOOT = {"sort_query": {"query_order"}, "strip_authentication": {"user", "passwor
         "strip_protocol": {"scheme", "port"}, "strip_irrelevant_subdomains": {"host"}, "strip_fragment": {"fragment"}, "normalize_amp": {"host", "path", "trailing_slash", "query", "query_order"},
         "fix_common_mistakes": {"query", "query_order"}, "infer_redirection": None}
 DROPPABLE = re.compile(r"^(?:www\d?|m|mobile)$")
-RELEVANT_KEYS = {b"id", b"page", b"p", b"article", b"v", b"lang"}
+RELEVANT_KEYS = {b"id", b"page", b"p", b"article", b"v", b"lang",
+                 # look-alikes of tracking keys (a longer or prefixed key is another key): never irrelevant
+                 b"sidney", b"fbclidx", b"gclidx", b"utm", b"xtorx", b"ampx", b"_gax", b"usqpx", b"seenx", b"cfidx", b"refidx", b"xsid", b"myfbclid", b"xutm_source", b"preamp", b"notref"}
 MISTAKES_RE = re.compile(r"&amp(?:%3B|;)", re.I)
 PROTO_RE = re.compile(r"^[a-zA-Z]{0,64}:?//")
 
@@ -379,7 +381,9 @@ DIRECTED = [
     "http://example.com/a//b/../c/./", "http://example.com/%7Efoo/a%2Fb?k=a%26b", "http://r.example.net/out?url=https%3A%2F%2Fwww.example.com%2Fa%2Findex.html%3Futm_source%3Dx%26id%3D1%23top",
     "https://www.facebook.com/some.page/posts/123?_rdr=1&id=2", "https://m.youtube.com/watch?v=aBcDeFgHiJk&t=10&feature=share", " \thttp://www.example.com/a/\x00 ", "http://example.com",
     "http://example.com/?", "http://example.com/#", "http://user@example.com", "http://[::1]:8080/a/", "http://192.168.0.1/index.html", "http://localhost/a/?utm_source=1",
-    "http://www.www.example.com/", "http://mobile.example.com/mobile./x", "http://example.com/?id=&id&ID=1&Id=2", "http://example.com/?q=a+b&q=a%20b&%71=c",
+    "http://www.www.example.com/", "http://mobile.example.com/mobile./x",
+    "http://example.com/x?sidney=1&fbclidx=2&gclidx=3&utm=4&xtorx=5&ampx=6&_gax=7&usqpx=8&seenx=9&cfidx=a&refidx=b&xsid=c&myfbclid=d&xutm_source=e&preamp=f&notref=twitter&sid=1&fbclid=2",
+    "http://example.com/a/index.tar.gz", "http://example.com/a/default.min.js", "http://example.com/a/index.foo.bar/", "http://example.com/a/.index", "http://example.com/a/index.", "http://example.com/?id=&id&ID=1&Id=2", "http://example.com/?q=a+b&q=a%20b&%71=c",
 ]
 UNPARSEABLE = ["", " ", "http://", "/rel", "?q", "#f", "http://a.com:abc/", "http://a.com:99999/", "http://[::1", "]", "https://ohioamf.org]", "http://[x]/", "a.com:port", "\x00", "http:///x", "://"]
 
